@@ -89,8 +89,35 @@ void DataSet::setData(const T &value)
     DataType dtype = hydra.element_data_type();
     NDSize shape = hydra.shape();
 
-    dataExtent(shape);
-    setData(dtype, hydra.data(), shape, {});
+    const NDSize extent = dataExtent();
+    if (extent.size() != shape.size()) {
+        // a change of rank is refused by dataExtent
+        dataExtent(shape);
+        setData(dtype, hydra.data(), shape, {});
+        return;
+    }
+
+    // grow first, write, shrink last: a refused write (e.g. no conversion
+    // between the element types) must leave extent and data as they were
+    NDSize grown = extent;
+    for (size_t i = 0; i < shape.size(); i++) {
+        if (shape[i] > grown[i])
+            grown[i] = shape[i];
+    }
+
+    if (grown != extent)
+        dataExtent(grown);
+
+    try {
+        setData(dtype, hydra.data(), shape, NDSize(shape.size(), 0));
+    } catch (...) {
+        if (grown != extent)
+            dataExtent(extent);
+        throw;
+    }
+
+    if (grown != shape)
+        dataExtent(shape);
 }
 
 template<typename T>
